@@ -295,6 +295,51 @@ def python_variants(prog, mode, exp, h, agg, tag=""):
         if bad:
             agg.fail(f"{mode}:python-{how}:{tag}{bad[0]}:{core_of(prog)}", f"[{mode}/Component.render slots as {how}] {bad[1]}",
                      {"mode": mode, "variant": "python-" + how, "program": prog.to_json(mode), "expected": list(exp), "spec": prog_spec(prog)})
+    # further Python routes (each must give the page the tag route gives):
+    #   forward        a wrapper receives the fills under RENAMED keys and hands the normalised Slot objects of its
+    #                  `self.input.slots` on to the component under the real names, from get_context_data - once as a nested
+    #                  render (context passed on) and once as a render of its own
+    #   func-component every fill is a function that renders a helper component with the Context it receives
+    from django_components import Component
+
+    target = classes[cname]
+    for nested in (True, False):
+        def fwd_gcd(self, _nested=nested, **kw):
+            fwd = {k[2:]: v for k, v in self.input.slots.items()}
+            kwargs = {"context": self.input.context} if _nested else {"context": dict(PAGE_CTX)}
+            return {"inner": target.render(slots=fwd, render_dependencies=False, **kwargs)}
+
+        wrapper = type("P_forward", (Component,), {"template": "{{ inner }}", "get_context_data": fwd_gcd, "__module__": "verif_prog"})
+        how = "forward-nested" if nested else "forward-root"
+        try:
+            out = ("ok", wrapper.render(context=dict(PAGE_CTX), slots={"r_" + k: mark_safe(v) for k, v in slots.items()}, render_dependencies=False))
+        except RecursionError:
+            out = ("err", "RecursionError", "")
+        except Exception as ex:  # noqa
+            out = ("err", type(ex).__name__, str(ex)[:200])
+        boot.clear_render_registries()
+        agg.transitions += 1
+        agg.validated += 1
+        bad = compare(mode, "python-" + how, prog, exp, out)
+        if bad:
+            agg.fail(f"{mode}:python-{how}:{tag}{bad[0]}:{core_of(prog)}", f"[{mode}/fills forwarded under other names by a wrapper ({how})] {bad[1]}",
+                     {"mode": mode, "variant": "python-" + how, "program": prog.to_json(mode), "expected": list(exp), "spec": prog_spec(prog)})
+    if slots:
+        echo = type("P_echo", (Component,), {"template": "{{ t }}", "get_context_data": lambda self, t="", **kw: {"t": t}, "__module__": "verif_prog"})
+        sl = {k: (lambda ctx, data, ref, _v=v: echo.render(context=ctx, kwargs={"t": mark_safe(_v)}, render_dependencies=False)) for k, v in slots.items()}
+        try:
+            out = ("ok", target.render(context=dict(PAGE_CTX), slots=sl, render_dependencies=False))
+        except RecursionError:
+            out = ("err", "RecursionError", "")
+        except Exception as ex:  # noqa
+            out = ("err", type(ex).__name__, str(ex)[:200])
+        boot.clear_render_registries()
+        agg.transitions += 1
+        agg.validated += 1
+        bad = compare(mode, "python-func-component", prog, exp, out)
+        if bad:
+            agg.fail(f"{mode}:python-func-component:{tag}{bad[0]}:{core_of(prog)}", f"[{mode}/fills are functions that render a component with the Context they receive] {bad[1]}",
+                     {"mode": mode, "variant": "python-func-component", "program": prog.to_json(mode), "expected": list(exp), "spec": prog_spec(prog)})
 
 
 def run(ctx):
